@@ -7,6 +7,9 @@ import (
 func LadnToModels(buf []uint8) (dnnValues []string) {
 	for bufOffset := 1; bufOffset < len(buf); {
 		lenOfDnn := int(buf[bufOffset])
+		if lenOfDnn == 0 || bufOffset+lenOfDnn > len(buf) {
+			break // malformed: would not advance, or runs past the end
+		}
 		dnn := string(buf[bufOffset : bufOffset+lenOfDnn])
 		dnnValues = append(dnnValues, dnn)
 		bufOffset += lenOfDnn
